@@ -6,7 +6,7 @@ registrations/removals as operations.
 """
 from mc.engine import hbfs
 from mc.engine.report import Violation
-from mc.engine.seams import Canon
+from mc.engine.seams import Canon, public_snapshot
 
 import logging
 
@@ -151,7 +151,7 @@ class Harness:
         n = op[1] if kind == 'execute' else 1
         n0 = len(w.log)
         if not w.running:
-            before = self.cn(m, list(w.objs.values()))
+            before = public_snapshot(m)
             raised = None
             try:
                 if kind == 'execute':
@@ -170,7 +170,7 @@ class Harness:
             if len(w.log) != n0:
                 raise Violation(f'{op}: systems ran after the model was complete', expected=[],
                                 observed=w.log[n0:])
-            if self.cn(m, list(w.objs.values())) != before:
+            if public_snapshot(m) != before:
                 raise Violation(f'{op}: advancing a complete model changed model state',
                                 expected=f'timestep {w.t}', observed=f'timestep {m.timestep}')
             w.last = ('complete', w.t, ())
